@@ -101,4 +101,14 @@ Definition rescan (old : list (list N * list N * list N)) (files : list (list N)
 Definition explorer_run (history : list (list (list N))) : list (list N * list N * list N) :=
   fold_left rescan history [].
 
+(* chronicler_v2.go:Load - a chronicler created without a name adopts the name stored in the
+   file BEFORE anything else uses it; the self-heal compaction (CompactFromIndex) then creates
+   the new file under the chronicler's name and writes the live entries as inserts *)
+Definition adopt_name (cname fname : list N) : list N :=
+  match cname with [] => fname | _ => cname end.
+Definition selfheal_ops (cname fname : list N) (live : list (list N * list N * bool))
+  : list (wop (list N) (list N) (list N)) :=
+  OOpen (adopt_name cname fname)
+  :: map (fun e => OWrite (mkL OpInsert (fst (fst e)) (snd (fst e))) (snd e)) live ++ [OClose].
+
 End SwampName.
